@@ -908,7 +908,8 @@ pub fn stress_parts(id: &str) -> Vec<StressPart> {
         "C13" => vec![p(Kind::Lookups, 320, 6000, 35)],
         "C10" => vec![p(Kind::Barrier, 640, 12000, 25), p(Kind::WaitRace, 640, 12000, 25)],
         "C12" => vec![p(Kind::Close, 960, 16000, 30)],
-        "C20" => vec![p(Kind::Config, 960, 16000, 30)],
+        "C20" => vec![p(Kind::Config, 960, 16000, 30), p(Kind::Close, 480, 8000, 30)],
+        "C16" => vec![p(Kind::Invariants, 320, 6000, 25)],
         "C19" => vec![
             p(Kind::Invariants, 320, 6000, 100),
             p(Kind::Barrier, 240, 5000, 100),
